@@ -283,8 +283,13 @@ func nDefs(model map[string]string, tag string, gen int) *definition.PipelinesDe
 
 func (w *nWorld) counts() (running, waiting int, newestWaiting *nJob) {
 	for _, nj := range w.jobs {
+		w.mu.Lock()
+		inflight := nj.inflight
+		w.mu.Unlock()
 		_ = w.r.ReadJob(nj.id, func(j *PipelineJob) {
-			if j.Start != nil && !j.Completed && !j.Canceled {
+			// a job executes while it is reported as started-and-unfinished, and in any case while one of
+			// its tasks is in flight in the task runner (observed by the mock)
+			if (j.Start != nil && !j.Completed && !j.Canceled) || inflight > 0 {
 				running++
 			}
 			if j.Start == nil && !j.Canceled {
